@@ -7,6 +7,7 @@ package main
 
 import (
 	"fmt"
+	"io"
 	"math/rand"
 	"os/exec"
 
@@ -197,6 +198,74 @@ func runReuse(c *sup.Child, b sup.Batch) {
 				}
 			}
 			r.Key = canonical("reuse|"+variant, cur)
+			r.Nontrivial = true
+		})
+	}
+}
+
+// twoScripts: the start-up scripts of two environments are built one after the other and only
+// then read and run, first the one that was built first (two sandboxes of one pipeline started
+// close together): each script sets what its own environment configures.
+func runTwoScripts(c *sup.Child, b sup.Batch) {
+	variant := b.PS("variant", vContainer)
+	for idx := b.From; idx < b.To; idx++ {
+		rng := c.Rand(idx)
+		mk := func() map[string]string {
+			names := genNames(rng, 1+rng.Intn(5))
+			m := map[string]string{}
+			for i, k := range names {
+				m[k] = genValue(rng, names, i)
+			}
+			return m
+		}
+		m1, m2 := mk(), mk()
+		desc := map[string]any{"kind": "two-scripts", "variant": variant, "env1": quoteMap(m1), "env2": quoteMap(m2)}
+		c.Case(idx, desc, func(r *sup.CaseResult) {
+			if why := calibrate(); why != "" {
+				r.Inconclusive = why
+				return
+			}
+			e1, err1 := newEnvs(m1, false)
+			e2, err2 := newEnvs(m2, true)
+			if err1 != nil || err2 != nil {
+				r.Inconclusive = "plain names were rejected"
+				return
+			}
+			rd1, err := scriptReader(variant, e1)
+			if err != nil {
+				r.Inconclusive = "script builder failed: " + err.Error()
+				return
+			}
+			rd2, err := scriptReader(variant, e2)
+			if err != nil {
+				r.Inconclusive = "script builder failed: " + err.Error()
+				return
+			}
+			s1, errA := io.ReadAll(rd1)
+			s2, errB := io.ReadAll(rd2)
+			if errA != nil || errB != nil {
+				r.Inconclusive = "reading the scripts failed"
+				return
+			}
+			budget := maxViol
+			for i, sm := range []struct {
+				script []byte
+				m      map[string]string
+			}{{s1, m1}, {s2, m2}} {
+				o := feed(variant, sm.script, sm.m)
+				if o.inc != "" {
+					r.Inconclusive = o.inc
+					return
+				}
+				r.AddObs("shell_runs", 1)
+				ps := judge(sm.m, o, dashWant(sm.m, sm.script))
+				for k := range ps {
+					ps[k].detail = fmt.Sprintf("script %d of two that were built before either was read: %s", i+1, ps[k].detail)
+				}
+				report(r, variant, sm.m, sm.script, o, ps, false, &budget)
+			}
+			r.AddObs("pairs_of_scripts_built_before_either_was_read_"+variant, 1)
+			r.Key = canonical("two|"+variant, m1)
 			r.Nontrivial = true
 		})
 	}
